@@ -15,7 +15,7 @@ def tlc_agg(run, name, module, cfgtext, **kw):
 
 AGG = {
     "C02": dict(invs=["C02_EntriesMatch"], judge=lambda b: not b["dimpl"],
-                quick=[("MC_C02a", 4, 2), ("MC_C02b", 6, 3)], thorough=[("MC_C02a", 6, 3), ("MC_C02b", 8, 3)],
+                quick=[("MC_C02a", 4, 2), ("MC_C02b", 6, 3)], thorough=[("MC_C02a", 5, 3), ("MC_C02b", 7, 3)],
                 sim=[("MC_C02a", 14, 3), ("MC_C02b", 16, 4)],
                 rule="TLC enumerates well-formed programs over two alphabets (a: definitions, set, option, add_test, "
                      "generic commands incl. compound arguments and a command named generic_command; b: classes, "
@@ -23,7 +23,7 @@ AGG = {
                      "with/without doccomment; projection compared: kind/name/order of top-level directives, arguments "
                      "of generic invocations, member names per class"),
     "C03": dict(invs=["C03_Signatures"], judge=lambda b: True,
-                quick=[("MC_C03", 6, 3)], thorough=[("MC_C03", 8, 3)], sim=[("MC_C03", 18, 4)],
+                quick=[("MC_C03", 6, 3)], thorough=[("MC_C03", 7, 3)], sim=[("MC_C03", 18, 4)],
                 rule="TLC enumerates well-formed programs over definitions with 0-2 parameters (strip pattern matching "
                      "some parameters and some names), cmake_parse_arguments at every position, member/test "
                      "declarations with implementing definitions (documented or not), ordinary commands; projection "
@@ -129,6 +129,11 @@ def c20(run):
         res = lib.run_tlc("MC_C20", C20_CFG.format(maxops=maxops, maxdepth=maxdepth, reads=reads, ops=ops))
         run.add_tlc("MC_C20(%s,ops<=%d,depth<=%d)" % (ops, maxops, maxdepth), res, vacuity_exempt=("SetTitle", "AddDoctest", "AddSection", "ChangeTitle", "AddList"))
         rstw.replay(run, res.lines.get("BEH", []), run.seed, limit=None if q else 150000)
+    # nesting to six levels, exhaustively: chains of directives with a field somewhere (levels the pipeline never builds)
+    res = lib.run_tlc("MC_C20", C20_CFG.format(maxops=7, maxdepth=6, reads=1, ops="ChainOps").replace("TitleMenu <- Titles", "TitleMenu <- OneTitle")
+                      .replace("TextMenu <- Texts", "TextMenu <- OneText"), coverage=False)
+    run.add_tlc("MC_C20(ChainOps: nesting to depth 6, exhaustive)", res)
+    rstw.replay(run, [b for b in res.lines.get("BEH", []) if sum(1 for o in b["hist"] if o["op"] == "directive") >= 4], run.seed, limit=6000 if q else 60000)
     res = lib.run_tlc("MC_C20", C20_CFG.format(maxops=7, maxdepth=6, reads=1, ops="DeepOps"), simulate=60 if q else 600, depth=9,
                       seed=run.seed, workers=8, coverage=False)
     run.add_tlc("MC_C20(DeepOps: nesting to depth 6, simulate)", res)
@@ -199,6 +204,7 @@ def walk_property(run):
         run.add_tlc("MC_Walk(%s,%s,Dev=Current)" % (trees, pats), res)
     if pid == "C18":
         walkh.replay_c18(run, res.lines.get("BEH", []), run.seed, limit=1500 if q else 20000)
+        walkh.single_file_output_case(run)
         run.assumptions += ["inputs that trigger diagnostics are excluded from the stdout comparison (fixture files are clean)"]
         return ("TLC checks the effect invariants (no writes without -o, no prints with -o, file-system changes only at/below "
                 "an output directory inside the input tree, pages of a directory together and sorted) on the walk "
@@ -217,6 +223,7 @@ def walk_property(run):
             raise lib.MachineryError("Walk.tla: D_LinkedDirsListed no longer violates C14_NoDangling")
     if pid == "C15":
         walkh.script_entry_case(run)
+        walkh.file_input_case(run)
     if pid == "C13":
         regen_layer(run, "cli")
     # binding B: recorded walks over random trees (deeper, more names and patterns than the menus), validated by TLC
@@ -455,7 +462,7 @@ C05_CONFIGS = {   # ... , cmds, args, depth, len quick, len thorough
     "quoted": ("IdentsOne", "Quo", "SepsPlain", "EndsNl", "NoGaps", 1, 2, 0, 11, 16),
     "bracket": ("IdentsOne", "Bra", "SepsPlain", "EndsNl", "NoGaps", 1, 2, 0, 14, 20),
     "comments": ("IdentsOne", "SmallArgs", "SepsComments", "Ends", "NoGaps", 1, 2, 1, 12, 14),
-    "mixed2": ("IdentsS", "MixedArgs", "SepsPlain", "Ends", "Gaps", 2, 2, 1, 10, 14),
+    "mixed2": ("IdentsS", "MixedArgs", "SepsPlain", "Ends", "Gaps", 2, 2, 1, 10, 12),
     "compound": ("IdentsOne", "SmallArgs", "SepsPlain", "EndsNl", "NoGaps", 1, 3, 2, 10, 13),
 }
 
@@ -678,6 +685,7 @@ def c10(run):
     valuesh.replay(run, res.lines.get("BEH", []), run.seed)
     valuesh.crlf_cases(run)
     valuesh.twin_cases(run)
+    valuesh.empty_doc_cases(run)
     run.assumptions += ["argument values without line breaks (three fixed CRLF cases with values that span lines aside); option() with 2 or 3 arguments; set() with a name",
                         "help text and default of an option are compared as written (quotes included)"]
     return ("TLC enumerates set() with 0..n values and option() with/without default over 15 argument texts (identifier, "
